@@ -205,6 +205,48 @@ Section SpecJet.
     mkWB m com vel acc L dL ke pe.
 End SpecJet.
 
+(* ---------- constraints (C08-C11): position-level functions phi(q); their time-derivatives by jets ---------- *)
+Section SpecCons.
+  Context {T : Type} (O : Ops T).
+  Local Notation t0 := (o0 O).
+  Inductive SRow :=
+  | SContact (node : option nat) (pt : V3 T) (nrm : V3 T)
+  | SLoop (np ns : option nat) (Xp Xs : ST T) (axis : SV T).
+  Definition pose_of (ps : list (Pose (T:=T))) (k : option nat) : Pose (T:=T) :=
+    match k with Some i => nth i ps (pose_id O) | None => pose_id O end.
+  (* frame fixed in a body: (rotation frame -> base, origin in base coordinates) *)
+  Definition frame_of (P : Pose (T:=T)) (X : ST T) : M3 T * V3 T :=
+    (m3mul O (fst P) (stE X), v3add O (snd P) (m3v O (fst P) (str X))).
+  Definition spec_phi (ps : list (Pose (T:=T))) (r : SRow) : T :=
+    match r with
+    | SContact k pt nrm => v3dot O nrm (point_of O (pose_of ps k) pt)
+    | SLoop kp ks Xp Xs ax =>
+        let '(Ra, ra) := frame_of (pose_of ps kp) Xp in
+        let '(Rb, rb) := frame_of (pose_of ps ks) Xs in
+        let R := m3mul O (m3T Ra) Rb in
+        let h := oopp O (ohalf O) in
+        let rot := mkV3 (omul O h (osub O (m12 R) (m21 R))) (omul O h (osub O (m20 R) (m02 R))) (omul O h (osub O (m01 R) (m10 R))) in
+        let lin := m3Tv O Ra (v3sub O rb ra) in
+        svdot O ax (svof rot lin)
+    end.
+End SpecCons.
+Arguments SRow : clear implicits. Arguments SContact {T}. Arguments SLoop {T}.
+Section SpecConsJet.
+  Context {T : Type} (O : Ops T).
+  Definition lift_st (X : ST T) : ST (Jet T) := mkST (lift_m3 O (stE X)) (lift_v3 O (str X)).
+  Definition lift_srow (r : SRow T) : SRow (Jet T) :=
+    match r with
+    | SContact k pt n => SContact k (lift_v3 O pt) (lift_v3 O n)
+    | SLoop kp ks Xp Xs ax => SLoop kp ks (lift_st Xp) (lift_st Xs)
+        (mkSV (jconst O (s0 ax)) (jconst O (s1 ax)) (jconst O (s2 ax)) (jconst O (s3 ax)) (jconst O (s4 ax)) (jconst O (s5 ax)))
+    end.
+  (* value, first and second time-derivative of every phi along (q, qd, qdd) *)
+  Definition spec_phi_jets (nodes : list (Node T)) (sph : list (nat * nat)) (ndof : nat) (q qd qdd : list T)
+             (rows : list (SRow T)) : list (Jet T) :=
+    let ps := poses (jet_ops O) (map (lift_node O) nodes) (q_jets O sph ndof q qd qdd) ndof in
+    map (fun r => spec_phi (jet_ops O) ps (lift_srow r)) rows.
+End SpecConsJet.
+
 (* ---------- rigid union / difference of two bodies (C15), from the definitions ---------- *)
 Section SpecUnion.
   Context {T : Type} (O : Ops T).
